@@ -154,9 +154,11 @@ impl InnerNodeManage {
         let local_node = self.get_this_node();
         self.all_nodes.entry(self.local_id).or_insert(local_node);
         self.update_nodes_index();
-        self.update_process_range();
+        //a liveness change since the last check (a peer that is back) may move the range right here;
+        //the naming actor has to hear about it, the next status check will find nothing left to report
+        let range_change = self.update_process_range();
         self.first_query_snapshot(ctx);
-        if is_change {
+        if is_change || range_change {
             //集群节点变更化重新刷新服务管理范围
             self.refresh_process_range();
         }
